@@ -41,8 +41,9 @@ def tasks(tier, seed):
             cfg = configs.cfg(algo, part, K, configs.BOXES[box], **params)
             ts.append({"kind": "algo", "label": "full/%s/%s" % (label, part), "cfg": cfg, "mode": "full", "T": 7 if tier == "quick" else 9,
                        "R": list(configs.R3), "cost": 5})
-            ts.append({"kind": "algo", "label": "dev/%s/%s" % (label, part), "cfg": cfg, "mode": "dev", "T": 103, "R": [1.0, -1.0],
-                       "base": "twopeak", "k": 1 if tier == "quick" else 2, "cost": 20, "max_exec": 1000 if tier == "quick" else 30000})
+            for base in ("twopeak", "negpeak"):
+                ts.append({"kind": "algo", "label": "dev/%s/%s/%s" % (label, part, base), "cfg": cfg, "mode": "dev", "T": 103, "R": [1.0, -1.0],
+                           "base": base, "k": 1 if tier == "quick" else 2, "cost": 20, "max_exec": 1000 if tier == "quick" else 30000})
     return ts
 
 
@@ -67,9 +68,11 @@ def _sched_task(task):
                 st.bump("skipped_floor_zero")
                 continue
             cfg = configs.cfg("GPO", "Binary", None, configs.BOXES["u1"], numax=task["numax"], rhomax=rm, rounds=n, base=task["base"])
-            t = {"cfg": cfg, "mode": "dev", "T": n + 3, "R": [1.0], "base": "alt", "k": 0, "label": task["label"]}
-            run_algo_task(t, _mk, nontrivial=lambda ctx: (ctx.cfg["params"]["rounds"], ctx.cfg["params"]["rhomax"]),
-                          learner_classes=stub_classes, stats=st, digest=(n % 50 == 0))
+            # two reward scripts: alternating signs, and all-negative rewards that depend on the proposed point
+            for base in ("alt", "negpeak"):
+                t = {"cfg": cfg, "mode": "dev", "T": n + 3, "R": [1.0], "base": base, "k": 0, "label": task["label"]}
+                run_algo_task(t, _mk, nontrivial=lambda ctx: (ctx.cfg["params"]["rounds"], ctx.cfg["params"]["rhomax"]),
+                              learner_classes=stub_classes, stats=st, digest=(n % 50 == 0))
             st.bump("schedules")
     for v in st.violations:
         v["task"] = dict(v["task"], stub=True)
